@@ -312,6 +312,10 @@ def list_pop_at(lst, idx, facts):
     facts.append(V.list_len(r) == n - 1)
     facts.append(z3.ForAll([i], z3.Implies(z3.And(0 <= i, i < idx), V.eq(V.list_get(r, i), V.list_get(lst, i)))))
     facts.append(z3.ForAll([i], z3.Implies(z3.And(idx <= i, i < n - 1), V.eq(V.list_get(r, i), V.list_get(lst, i + 1)))))
+    # the same shift indexed from the old list, so that a term lst[j] triggers it
+    j = z3.Int(V.fresh_name("qj"))
+    facts.append(z3.ForAll([j], z3.Implies(z3.And(idx < j, j < n), V.eq(V.list_get(r, j - 1), V.list_get(lst, j))),
+                           patterns=[lst.parts[0][j]] if len(lst.parts) > 1 else []))
     return r
 
 
